@@ -39,10 +39,11 @@ import (
 
 // Tk is one ticker handed to the code under test.
 type Tk struct {
-	Seq int // creation order, 0-based
-	D   time.Duration
-	Ch  chan time.Time // unbuffered: a send succeeds only while a goroutine is parked on it
-	T   *bbclock.Ticker
+	Label string // Clock.Label at creation (which server the harness was driving)
+	Seq   int    // creation order, 0-based
+	D     time.Duration
+	Ch    chan time.Time // unbuffered: a send succeeds only while a goroutine is parked on it
+	T     *bbclock.Ticker
 }
 
 // TryTick delivers one tick if (and only if) some goroutine currently waits on the ticker.
@@ -57,6 +58,7 @@ func (t *Tk) TryTick(now time.Time) bool {
 
 // Clock implements bbclock.Clock. Only Now and Ticker are used by the IS-IS server.
 type Clock struct {
+	Label   string // copied into the tickers created from now on
 	mu      sync.Mutex
 	now     time.Time
 	dummy   *bbclock.Mock // provides *bbclock.Ticker values whose Stop() works
@@ -68,6 +70,13 @@ var Epoch = time.Unix(1_000_000, 0).UTC()
 
 func NewClock() *Clock {
 	return &Clock{now: Epoch, dummy: bbclock.NewMock()}
+}
+
+// SetLabel names the server the harness drives from now on (tickers created meanwhile carry it).
+func (c *Clock) SetLabel(l string) {
+	c.mu.Lock()
+	c.Label = l
+	c.mu.Unlock()
 }
 
 func (c *Clock) Now() time.Time {
@@ -91,7 +100,7 @@ func (c *Clock) Ticker(d time.Duration) *bbclock.Ticker {
 	t := c.dummy.Ticker(d)
 	ch := make(chan time.Time)
 	t.C = ch
-	c.tickers = append(c.tickers, &Tk{Seq: len(c.tickers), D: d, Ch: ch, T: t})
+	c.tickers = append(c.tickers, &Tk{Label: c.Label, Seq: len(c.tickers), D: d, Ch: ch, T: t})
 	return t
 }
 
